@@ -466,7 +466,7 @@ func Run(cfg hx.Config) (*hx.Meta, error) {
 	ts := candidates(cat)
 	perCell, extra, nhist, maxLen, poolMax, batchSize := 1, 0, 50, 12, 12, 30
 	if cfg.Tier == "thorough" {
-		perCell, extra, nhist, maxLen, poolMax, batchSize = 3, 8, 500, 30, 20, 20
+		perCell, extra, nhist, maxLen, poolMax, batchSize = 4, 12, 800, 30, 20, 20
 	}
 
 	// parameter types whose Equal and Hash the generator accepts and that type-check (anything
